@@ -31,6 +31,7 @@ def corpus_jobs(prop, path, exes):
 HARNESS = {}
 PROPS = {}
 _REPLAY = []
+_XBT_HARNESS = []
 _LIST_FIELDS = ("harness", "thorough_harness", "proof_modules", "assumptions", "trusted")
 
 
@@ -56,10 +57,43 @@ def _load():
             _merge(prop, c)
         if hasattr(m, "replay_jobs"):
             _REPLAY.append(m.replay_jobs)
+        _XBT.extend(getattr(m, "XBT", []))
+        for h in getattr(m, "XBT_HARNESS", []):
+            _XBT_HARNESS.append(h)
+    if _XBT:
+        _merge("C12", dict(harness=_XBT_HARNESS, streams=xbt_streams))
     for prop, p in PROPS.items():
         fns = p.pop("_streams")
         p["streams"] = (lambda fns: (lambda tier, seed, exes: [j for fn in fns for j in fn(tier, seed, exes)]))(fns)
         p.setdefault("proof_modules", [f"UVerifProofs.Props.{prop}"])
+
+
+_BT = ("u8", "u16", "u32", "u64")
+_XBT = []   # stream functions whose exhaustive jobs exist once per block type
+
+
+def xbt_streams(tier, seed, exes):
+    """C12, model-free: the SAME exhaustive stream is produced by the instantiations of a configuration for every block type;
+    the transcripts must be identical once the block-type token is masked. Jobs are grouped by (harness family, arguments)."""
+    import re
+    groups = {}
+    class _Exes(dict):           # the stream functions also build jobs for harnesses C12 does not compile: ignore those
+        def __missing__(self, k):
+            return "/nonexistent/" + k
+    for fn in _XBT:
+        for j in fn(tier, seed, _Exes(exes)):
+            if "exh" not in j.get("args", []) or j.get("env"):
+                continue
+            fam = re.sub(r"_(u8|u16|u32|u64)$", "", os.path.basename(j["exe"]))
+            key = (fam, tuple("BT" if a in _BT else a for a in j["args"]))
+            groups.setdefault(key, []).append(j)
+    jobs = []
+    for (fam, args), js in sorted(groups.items()):
+        if len(js) >= 2:
+            jobs.append(dict(xbt=[(j["exe"], j["args"]) for j in js], label=f"cross-block-type {fam} {' '.join(args)} x{len(js)}"))
+    if tier == "quick":
+        jobs = rotate(jobs, seed, 60)
+    return jobs
 
 
 def replay_jobs(prop, path, exes):
